@@ -1988,3 +1988,162 @@ def declared_associated_scenarios(chk: Check):
 
 def jsonable_obs(o):
     return json.loads(json.dumps(o, default=str))
+
+
+def _report(chk, name, ok, detail, sig=None, nontrivial=True):
+    chk.case({'name': name}, nontrivial=nontrivial)
+    if ok:
+        chk.traces_validated += 1
+    else:
+        chk.fail(f'{name}: {detail}', {'name': name, 'observed': jsonable_obs(detail)}, signature=sig)
+
+
+def save_then_lookup_scenarios(chk: Check, rng, n):
+    """C08: an in-memory identified store is synced / queried while in memory, saved to files, and then every identifier
+    must be found (the index has to be built when the files exist), also after closing and reopening."""
+    e = Env.get()
+    TS = e.TS
+    for j in range(n):
+        root = chk.tmp / f'save{j}'
+        root.mkdir(parents=True, exist_ok=True)
+        k = rng.randint(2, 6)
+        ids = rng.sample(range(10, 500), k)
+        pre = rng.choice(['sync', 'lookup', 'sync+lookup', 'none'])
+        chk.count('save_then_lookup_scenarios:' + pre)
+        obs = {}
+        try:
+            ts = TS.create()
+            for t, fid in enumerate(ids):
+                ts.add(e.mk(t, fid, 0, 'ok'))
+            if 'sync' in pre:
+                ts.sync()
+            if 'lookup' in pre:
+                obs['in_memory'] = tag_of(ts.get_flight(ids[0]))
+            ts.save(base_file=root / 's.nc')
+            extra = rng.random() < 0.5
+            if extra:
+                ids.append(900 + j)
+                ts.add(e.mk(k, ids[-1], 0, 'ok'))
+            obs['after_save'] = [None if (r := ts.get_flight(f)) is None else tag_of(r) for f in ids]
+            obs['absent'] = ts.get_flight(7)
+            ts.close()
+            with TS.open(base_file=root / 's.nc') as r_:
+                obs['reopened'] = [None if (r := r_.get_flight(f)) is None else tag_of(r) for f in ids]
+                obs['len'] = len(r_)
+        except Exception as ex:  # noqa: BLE001
+            obs['error'] = f'{type(ex).__name__}: {ex}'[:120]
+        want = list(range(len(ids)))
+        ok = 'error' not in obs and obs['after_save'] == want and obs['reopened'] == want and obs['absent'] is None \
+            and obs['len'] == len(ids) and obs.get('in_memory', 0) == 0
+        _report(chk, f'in-memory:{pre}:save:lookup:{j}', ok, {'ids': ids, **obs})
+
+
+def exception_in_with_block_scenarios(chk: Check, rng, n):
+    """C08: additions inside a `with` block that is left by an exception: the store is closed by __exit__, and a reopen
+    must find every identifier added (create and append sessions)."""
+    e = Env.get()
+    TS = e.TS
+    for j in range(n):
+        root = chk.tmp / f'withexc{j}'
+        root.mkdir(parents=True, exist_ok=True)
+        p = root / 's.nc'
+        ids = rng.sample(range(10, 500), rng.randint(3, 7))
+        cut = rng.randint(1, len(ids) - 1)
+        obs = {}
+        try:
+            try:
+                with TS.create(base_file=p) as ts:
+                    for t, fid in enumerate(ids[:cut]):
+                        ts.add(e.mk(t, fid, 0, 'ok'))
+                    if rng.random() < 0.5:
+                        raise KeyboardInterrupt() if False else ZeroDivisionError('user code failed')
+            except ZeroDivisionError:
+                pass
+            try:
+                with TS.append(base_file=p) as ts:
+                    for t, fid in enumerate(ids[cut:], start=cut):
+                        ts.add(e.mk(t, fid, 0, 'ok'))
+                    raise ZeroDivisionError('user code failed')
+            except ZeroDivisionError:
+                pass
+            with TS.open(base_file=p) as r_:
+                obs['len'] = len(r_)
+                obs['lookups'] = [None if (r := r_.get_flight(f)) is None else tag_of(r) for f in ids]
+        except Exception as ex:  # noqa: BLE001
+            obs['error'] = f'{type(ex).__name__}: {ex}'[:120]
+        ok = 'error' not in obs and obs['len'] == len(ids) and obs['lookups'] == list(range(len(ids)))
+        _report(chk, f'with-block-left-by-exception:{j}', ok, {'ids': ids, 'cut': cut, **obs})
+
+
+def rewrite_input_then_retry_scenarios(chk: Check, rng, n):
+    """C10: a merge is refused; the offending input is regenerated IN PLACE (same path) so that it fits; the retry in
+    the same process must succeed and give the concatenation (nothing about the refused attempt may be remembered)."""
+    e = Env.get()
+    TS = e.TS
+    for j in range(n):
+        root = chk.tmp / f'rewrite{j}'
+        root.mkdir(parents=True, exist_ok=True)
+        k = rng.randint(2, 4)
+        bad = rng.randrange(k)
+        why = rng.choice(['identification', 'fieldsets'])
+        paths, expect, t = [], [], 1
+        obs = {}
+        try:
+            for i in range(k):
+                p = root / f's{i}.nc'
+                paths.append(p)
+                with TS.create(base_file=p) as ts:
+                    for _ in range(rng.randint(1, 3)):
+                        if i == bad:
+                            ts.add(e.mk(900 + t, None if why == 'identification' else 700 + t, 1 if why == 'fieldsets' else 0, 'ok'))
+                        else:
+                            ts.add(e.mk(t, 700 + t, 0, 'ok'))
+                        t += 1
+            out = root / 'm.aeic-store'
+            try:
+                TS.merge(output_store=out, input_stores=paths)
+                obs['first'] = 'returned'
+            except ValueError as ex:
+                obs['first'] = 'refused'
+            gc.collect()
+            os.remove(paths[bad])
+            with TS.create(base_file=paths[bad]) as ts:
+                ts.add(e.mk(500, 1500, 0, 'ok'))
+                ts.add(e.mk(501, 1501, 0, 'ok'))
+            for i, p in enumerate(paths):
+                expect += raw_tags(p)
+            TS.merge(output_store=out, input_stores=paths)
+            gc.collect()
+            with TS.open(base_file=out) as r_:
+                obs['merged'] = [tag_of(x) for x in r_]
+                obs['lookup'] = tag_of(r_.get_flight(1501))
+        except Exception as ex:  # noqa: BLE001
+            obs['error'] = f'{type(ex).__name__}: {ex}'[:140]
+        ok = 'error' not in obs and obs['first'] == 'refused' and obs['merged'] == expect and obs['lookup'] == 501
+        _report(chk, f'refused-merge:{why}:input-rewritten-in-place:retry:{j}', ok, {'expect': expect, **obs})
+
+
+def fieldset_order_scenarios():
+    """C09: inputs whose field sets differ, the richer one first and the poorer one first (subset / superset): refused
+    either way, nothing changed, and the inputs that fit merge afterwards"""
+    out = []
+    for rich_first in (True, False):
+        for ident in (True, False):
+            ops, t = [], 1
+            sigs = [1, 0, 0] if rich_first else [0, 0, 1]
+            paths = []
+            for i, sg in enumerate(sigs):
+                p = [0, i, 0]
+                paths.append(p)
+                ops.append(dict(op='create', p=p, cache=2))
+                for _ in range(1 + i % 2):
+                    ops.append(A(tag=t, fid=(1000 - t) if ident else None, sig=sg))
+                    t += 1
+                ops.append(dict(op='close'))
+            same = [p for p, sg in zip(paths, sigs) if sg == 0]
+            ops += [dict(op='merge', out=[0, 60, 1], ins=paths), dict(op='merge', out=[0, 60, 1], ins=list(reversed(paths))),
+                    dict(op='merge', out=[0, 60, 1], ins=same), dict(op='open_r', p=[0, 60, 1], cache=1), dict(op='len'),
+                    dict(op='iter'), dict(op='close')]
+            out.append({'name': f'fieldsets-{"superset" if rich_first else "subset"}-first:{"id" if ident else "noid"}',
+                        'ops': ops})
+    return out
